@@ -316,7 +316,7 @@ def run(ctx):
         for it in imp["items"]:
             if it["name"] not in ("next", "flush"):
                 continue
-            b = F.bodies.get((imp["crate"], it["def"]))
+            b = F.bodies.get((imp["crate"], it.get("uid") or it["def"]))
             if b is None:
                 continue
             pr = Prov(b)
